@@ -109,7 +109,8 @@ pub fn exec(sc: &Scenario) -> Outcome {
     if let Err(e) = h.boot(&sc.cfg, "a") { return Outcome { verdict: "harness".into(), note: e, ..Default::default() }; }
     let storage = h.sim.instances[0].storage.clone();
     let dump_all = |st: &ferrous::StorageEngine| -> String { (0..16).map(|d| format!("{:?}", st.verif_dump(d).iter().map(|e| (e.key.clone(), format!("{:?}", e.value), e.ttl_ns.is_some())).collect::<Vec<_>>())).collect::<Vec<_>>().join("|") };
-    let mut snapshot = String::new();
+    // (a minimised scenario may have lost its snapshot step: without one there is nothing to compare with)
+    let mut snapshot: Option<String> = None;
     let mut pending: Vec<(i64, Vec<Vec<u8>>)> = Vec::new();
     let mut expected_replies = 0usize;
     let mut u_closed_by_quit = false;
@@ -133,7 +134,7 @@ pub fn exec(sc: &Scenario) -> Outcome {
                 }
             }
             Step::Turns { n } => { for _ in 0..*n { h.turn(); } }
-            Step::Ctl { name, .. } if name == "snapshot" => { snapshot = dump_all(&storage); }
+            Step::Ctl { name, .. } if name == "snapshot" => { snapshot = Some(dump_all(&storage)); }
             Step::Ctl { name, n, a } if name == "u" => { pending.push((*n, args_of(a))); }
             Step::Ctl { name, n, .. } if name == "deliver" => {
                 let ci = match h.cl(1) { Some(x) => x, None => continue };
@@ -163,7 +164,7 @@ pub fn exec(sc: &Scenario) -> Outcome {
             }
             Step::Ctl { name, .. } if name == "compare" => {
                 let now = dump_all(&storage);
-                if now != snapshot { h.violate("C17/dataset-changed".into(), format!("the dataset changed while only an unauthenticated connection was sending commands: {}", pending.iter().map(|(_, a)| String::from_utf8_lossy(&a[0]).to_string()).collect::<Vec<_>>().join(","))); }
+                if snapshot.as_ref().map_or(false, |s| *s != now) { h.violate("C17/dataset-changed".into(), format!("the dataset changed while only an unauthenticated connection was sending commands: {}", pending.iter().map(|(_, a)| String::from_utf8_lossy(&a[0]).to_string()).collect::<Vec<_>>().join(","))); }
             }
             Step::Ctl { name, .. } if name == "quiet" => {
                 if let Some(ci) = h.cl(1) {
